@@ -3,7 +3,7 @@
    follows.  Consequently the `inside_ends` side condition of wf_doc can be checked on an item
    alone, by running the model on `src ++ marker ++ end delimiter`. *)
 From Coq Require Import Arith Wf_nat.
-From TeraV Require Import Model.Value Model.Utf8 Model.Lexer Spec.Doc Model.LexerDoc
+From TeraV Require Import Model.Value Model.Utf8Lex Model.Lexer Spec.Doc Model.LexerDoc
   Proofs.Utf8Proofs Proofs.LexerProofs Proofs.LexerSpans.
 Local Open Scope nat_scope.
 
